@@ -11,9 +11,10 @@ SITES = [
          rewrites={"align_identity": True, "truthy_scalars": ["discount_distance"]},
          outputs=["firm_score", "overforecast_penalty", "underforecast_penalty"], name="gen_firm_single"),
     # the scalar guards of _check_firm_inputs (length checks and the per-weight loop are hand-modelled)
-    dict(id="C12.firm_guards", group="C12_kern", kind="guards", file="categorical/multicategorical_impl.py",
+    # (`discount_distance is not None and discount_distance < 0`: the generated chain is for a given number; None is handled by the model)
+    dict(id="C12.firm_guards", group="C12_kern", kind="custom", fn=W.guards_site, file="categorical/multicategorical_impl.py",
          func="_check_firm_inputs", params={"risk_parameter": "num", "discount_distance": "num", "threshold_assignment": "str"},
-         skip_unsupported_guards=True, name="gen_guard_firm"),
+         rewrites={"not_none": ["discount_distance"]}, skip_unsupported_guards=True, name="gen_guard_firm"),
     # murphy_impl elementary scores (over, under) before the NaN merge
     dict(id="C12.murphy_quantile", group="C12_kern", kind="kernel", file="continuous/murphy_impl.py",
          func="_quantile_elementary_score", params={"fcst": "num", "obs": "num", "theta": "num", "alpha": "num"},
